@@ -224,3 +224,14 @@ func init() {
 		Bounds: map[string]interface{}{"levels": "trace(-1) .. disabled(7), case split", "inputs": "IFD0 one-entry skeletons (3 id classes); CR3 moov/uuid with CNCV and a CTBO of arbitrary count and five arbitrary items; for silence: arbitrary streams up to 26 bytes, ftyp + 24 arbitrary bytes"},
 	})
 }
+
+func init() {
+	register(&CheckDef{ID: "C19", Level: "model_checking", Timeout: [2]int{400, 1500}, MaxSteps: 30000000, SolverMs: 120000, LooseSamples: true,
+		Assumptions: []string{
+			"floats are bit patterns with uninterpreted arithmetic (fp=uf): value obligations are 'the same operations on the same pixel'",
+			"sync.Pool.Get returns New(); image and image/color accessors interpreted from their real SSA",
+			"not decided here: the median/threshold relation (uninterpreted float comparisons), 2-D DCT wiring, agreement of primary and alternative pipelines within rounding (see DESIGN.md C19)",
+		},
+		Bounds: map[string]interface{}{"guard": "4 constructors x sizes from {0,1,n-1,n,n+1,n/2,2n}^2 minus (n,n) x origin x in {-3,0,5}; nil image", "gray": "RGBA and Gray images of side 2 and 3, origins {0,1,-2}x{0,3}, arbitrary pixel bytes", "distance": "all 64/256-bit hash pairs"},
+	})
+}
